@@ -145,10 +145,40 @@ def check_wrap(cfg, crate, rep):
         rep.ob("C01.wrap", key + "|sig-of-tbs|" + ",".join(vs), signed and keyed, "signature value is computed from the embedded TBS bytes with this key",
                found=sorted(rts), sp=node.get("sp"))
         e = R._whole_bits(node["args"][1], I) if len(node["args"]) > 1 else "no length"
+        if e is None:
+            from interp import CallV as _C
+            l0 = core(node["args"][1])
+            inner = [core(a) for a in l0.args if isinstance(core(a), _C)]
+            if not inner or core(inner[0].args[0]).r() != core(a0).r():
+                e = "length is taken from %s, bytes from %s" % (core(inner[0].args[0]).r()[:60] if inner else "?", core(a0).r()[:60])
         rep.ob("C01.bits", key + "|" + ",".join(vs), e is None, "signature BIT STRING has len*8 bits (no unused bits, whole signature)", found=core(node["args"][1]).r() if len(node["args"]) > 1 else None, sp=node.get("sp"))
     want_kinds = {"Remote"} if cfg == "K3" else {"Ec", "Ed", "Rsa", "Remote"}
     rep.ob("C01.wrap", key + "|kinds", set(kinds) == want_kinds, "one signature arm per key kind", expected=sorted(want_kinds), found=sorted(kinds))
     rep.sample({"rule": "C01.wrap", "cfg": cfg, "outer": S.render(I, outer)[:12]})
+
+
+def check_sign_arms(cfg, crate, rep):
+    """KeyPair::sign: each arm calls the back end with the key object of that arm, the message, and (RSA) the padding stored with the key."""
+    fn = "key_pair::KeyPair::sign"
+    I = Interp(crate)
+    I.run_fn(fn)
+    want = {"Ec": ["self.kind#Ec.0"], "Ed": ["self.kind#Ed.0"], "Rsa": ["self.kind#Rsa.0", "self.kind#Rsa.1"], "Remote": ["self.kind#Remote.0"]}
+    seen = set()
+    for cal, args, n, cond, f in I.calls:
+        if f != fn or not cal.endswith("::sign") or cal == fn:
+            continue
+        vs = S._variants_of(cond) or []
+        if len(vs) != 1:
+            continue
+        v = vs[0]
+        seen.add(v)
+        rendered = [core(a).r() for a in args]
+        ok = all(w in rendered for w in want.get(v, ["?"])) and "msg" in rendered
+        rep.ob("C01.wrap", "%s|%s|backend-call|%s" % (cfg, fn, v), ok, "the back-end signing call receives this arm's key object%s and the message" % (", the padding scheme stored with the key" if v == "Rsa" else ""), expected=want.get(v, []) + ["msg"], found=rendered[:5], sp=n.get("sp"))
+    want_kinds = {"Remote"} if cfg == "K3" else {"Ec", "Ed", "Rsa", "Remote"}
+    rep.ob("C01.wrap", "%s|%s|backend-call|arms" % (cfg, fn), seen == want_kinds, "one back-end call per key kind", expected=sorted(want_kinds), found=sorted(seen))
+    # the written bits are the whole signature value
+    items = S.norm(I.run_fn(fn)["items"]) if False else None
 
 
 def check_artefacts(cfg, crate, rep):
@@ -338,6 +368,7 @@ def run(ctx):
     for cfg in (CONFIGS_QUICK if ctx.tier == "quick" else CONFIGS_THOROUGH):
         crate = ctx.crate(cfg)
         check_wrap(cfg, crate, rep)
+        check_sign_arms(cfg, crate, rep)
         check_artefacts(cfg, crate, rep)
         check_signer_and_only(cfg, crate, rep)
         check_err(cfg, crate, rep)
